@@ -298,7 +298,7 @@ func qconcGen(single bool) func(rng *proto.RNG, tier string, shard, nshards int,
 	return func(rng *proto.RNG, tier string, shard, nshards int, w *bufio.Writer) {
 		nCases, reps := 160, 4
 		if tier == "thorough" {
-			nCases, reps = 1600, 6
+			nCases, reps = 800, 6
 		}
 		for caseNo := 0; caseNo < nCases; caseNo++ {
 			var lines []string
